@@ -65,7 +65,7 @@ func (c *histCheck) Setup(w *core.Worker) error {
 	return nil
 }
 
-var histPools = []string{"base", "base+mk+keyonly", "base+extra+slashkeys", "base+mk+extra", "base+mk+extra+pres"}
+var histPools = []string{"base", "base+mk+keyonly+implicit", "base+extra+slashkeys", "base+mk+extra", "base+mk+extra+pres"}
 
 func (c *histCheck) RunCase(w *core.Worker, idx int, seed uint64, res *core.CaseResult) {
 	rng := core.NewRng(seed)
